@@ -2,6 +2,7 @@ import ExprModel.Proofs.LexNumber
 import ExprModel.Proofs.LexString
 import ExprModel.Proofs.LexLoop
 import ExprModel.Proofs.LexNumTok
+import ExprModel.Proofs.LexFloatTok
 import ExprModel.Gen.LexTables
 /-
 C12 — Literals and token positions are lexed faithfully.
@@ -324,5 +325,77 @@ theorem hex_literal (cc : CharClass) (hcc : cc.AsciiExact) (mark : Char) (hm : m
   obtain ⟨l, h⟩ := hex_lexes cc hcc mark hm n ups k seps
   exact ⟨{ kind := .number, value := hexSpelling mark n ups k seps, loc := ⟨1, 0⟩ }, l, h, rfl, rfl,
     hex_roundtrip mark hm n hn ups k seps⟩
+
+/-! ## Float literals through the lexer -/
+
+/-- **float_lexes**: a digit, further digits / `_`, an optional `.` + digits, an optional `e`/`E` + optional
+sign + digits (`FloatParts`: every text strconv.FormatFloat gives a finite non-negative value in the formats
+e E f g G, and the same with separators) alone in the source is exactly one Number token with that text -/
+theorem float_lexes (cc : CharClass) (hcc : cc.AsciiExact) (p : FloatParts) (hp : p.WF) :
+    ∃ l, lex cc LexTables.std (String.ofList p.text) =
+      .ok [{ kind := .number, value := String.ofList p.text, loc := ⟨1, 0⟩ }, { kind := .eof, value := "", loc := l }] := by
+  simp only [lex, String.toList_ofList]
+  exact lexChars_float cc hcc p hp
+
+private theorem isDec_not_x {c : Char} (h : isDec c = true) : c ≠ 'x' ∧ c ≠ 'X' := by
+  simp [isDec, LexTables.std] at h
+  rcases h with rfl | rfl | rfl | rfl | rfl | rfl | rfl | rfl | rfl | rfl | rfl <;> decide
+
+/-- **float_literal**: with a fraction or an exponent present, the token's text reaches
+`strconv.ParseFloat` unchanged except for the removal of `_` (whose result is the FloatNode's value) -/
+theorem float_literal (cc : CharClass) (hcc : cc.AsciiExact) (cfg : NumCfg) (hcfg : cfg = .asIs ∨ cfg = .repaired)
+    (p : FloatParts) (hp : p.WF) (hfl : p.frac.isSome = true ∨ p.exp.isSome = true) :
+    ∃ t l, lex cc LexTables.std (String.ofList p.text) = .ok [t, { kind := .eof, value := "", loc := l }] ∧
+      t.kind = .number ∧ t.loc = ⟨1, 0⟩ ∧
+      parseNumber cfg t.value = .ok (.float (String.ofList (stripUnderscores p.text))) := by
+  obtain ⟨l, h⟩ := float_lexes cc hcc p hp
+  refine ⟨{ kind := .number, value := String.ofList p.text, loc := ⟨1, 0⟩ }, l, h, rfl, rfl, ?_⟩
+  refine float_classified cfg hcfg p.text ?_ ?_
+  · rcases hfl with hf | he
+    · cases hfr : p.frac with
+      | none => simp [hfr] at hf
+      | some fs => exact ⟨'.', by simp [FloatParts.text, FloatParts.fracText, hfr], Or.inl rfl⟩
+    · cases hex : p.exp with
+      | none => simp [hex] at he
+      | some q =>
+        obtain ⟨e, sg, xs⟩ := q
+        exact ⟨e, by simp [FloatParts.text, FloatParts.expText, hex], Or.inr ((hp.exp _ _ _ hex).1)⟩
+  · intro c hc
+    simp only [FloatParts.text, List.mem_cons, List.mem_append] at hc
+    rcases hc with rfl | hc | hc | hc
+    · rcases ascii_digit_cases hp.d0 with h | h | h | h | h | h | h | h | h | h <;> rw [h] <;> decide
+    · exact isDec_not_x (hp.ip c hc)
+    · unfold FloatParts.fracText at hc
+      cases hfr : p.frac with
+      | none => simp [hfr] at hc
+      | some fs =>
+        simp only [hfr, List.mem_cons] at hc
+        rcases hc with rfl | hc
+        · decide
+        · exact isDec_not_x (hp.frac fs hfr c hc)
+    · unfold FloatParts.expText at hc
+      cases hex : p.exp with
+      | none => simp [hex] at hc
+      | some q =>
+        obtain ⟨e, sg, xs⟩ := q
+        obtain ⟨h1, h2, h3⟩ := hp.exp _ _ _ hex
+        simp only [hex, List.mem_cons, List.mem_append] at hc
+        rcases hc with rfl | hc | hc
+        · rcases h1 with rfl | rfl <;> decide
+        · rcases h2 with rfl | rfl | rfl
+          · simp at hc
+          · simp at hc; subst hc; decide
+          · simp at hc; subst hc; decide
+        · exact isDec_not_x (h3 c hc)
+
+/-- the shape is inhabited by what strconv prints: `1_0.5e-3`, `1e+06`, `0.000001`, `5.` -/
+example : (FloatParts.mk '1' ['_', '0'] (some ['5']) (some ('e', ['-'], ['3']))).text = "1_0.5e-3".toList ∧
+    (FloatParts.mk '1' [] none (some ('e', ['+'], ['0', '6']))).text = "1e+06".toList ∧
+    (FloatParts.mk '0' [] (some "000001".toList) none).text = "0.000001".toList := by decide
+
+example : (FloatParts.mk '1' ['_', '0'] (some ['5']) (some ('e', ['-'], ['3']))).WF := by
+  refine ⟨by decide, by decide, ?_, ?_⟩
+  · intro fs h; cases h; decide
+  · intro e sg xs h; cases h; decide
 
 end ExprModel.C12
